@@ -442,3 +442,206 @@ def encode_layout(q, rowsem, layout, rows=None, pi_exprs=None, wmap=None):
             q.add(f)
             out.append((i, name, f))
     return out
+
+
+# ------------------------------------------------------------------ range-block summaries
+class RangePatterns:
+    """Layouts of `range_check(k)` for every k, as extracted from the real
+    composer in this run; used to recognise range-check sub-blocks inside
+    bigger gadgets so that they can be replaced by the summary `value < 2^k`
+    (justified by the C09 soundness obligation of that width, re-proven by the
+    run that uses the summary)."""
+
+    def __init__(self, layouts):
+        self.pat = {}
+        for j in layouts:
+            L = Layout(j)
+            rows = L.gates[L.init_rows:]
+            self.pat[j["width"]] = (rows, L.inputs["x"], L)
+        # longest patterns first
+        self.order = sorted(self.pat, key=lambda k: -len(self.pat[k][0]))
+        self.by_first = {}
+        for k in self.order:
+            rows = self.pat[k][0]
+            key = tuple(rows[0][0])
+            self.by_first.setdefault(key, []).append(k)
+
+    def match_at(self, layout, i, k):
+        rows, xin, _ = self.pat[k]
+        m = len(rows)
+        if i + m > len(layout.gates):
+            return None
+        mp = {0: 0, 1: 1}
+        inv = {0: 0, 1: 1}
+        for (ps, pw), (bs, bw) in zip(rows, layout.gates[i:i + m]):
+            if ps != bs:
+                return None
+            for a, b in zip(pw, bw):
+                if a in mp:
+                    if mp[a] != b:
+                        return None
+                else:
+                    if b in inv:
+                        return None
+                    mp[a] = b
+                    inv[b] = a
+        return mp, m
+
+    def find_blocks(self, layout, start=None):
+        """greedy left-to-right: list of (row_start, row_end, k, value_witness)"""
+        i = layout.init_rows if start is None else start
+        n = len(layout.gates)
+        use = {}
+        for r, (_, w) in enumerate(layout.gates):
+            for x in w:
+                use.setdefault(x, set()).add(r)
+        blocks = []
+        while i < n:
+            hit = None
+            for k in self.by_first.get(tuple(layout.gates[i][0]), []):
+                r = self.match_at(layout, i, k)
+                if r is None:
+                    continue
+                mp, m = r
+                xin = self.pat[k][1]
+                internals = [b for a, b in mp.items() if a not in (0, 1, xin)]
+                blockrows = set(range(i, i + m))
+                # next-row reads: the row before the block must not read into it
+                private = all(use[b] <= blockrows for b in internals)
+                if private and xin in mp:
+                    hit = (i, i + m, k, mp[xin])
+                    break
+            if hit:
+                blocks.append(hit)
+                i = hit[1]
+            else:
+                i += 1
+        return blocks
+
+
+def encode_with_summaries(q, rowsem, layout, patterns, min_rows=3):
+    """encode the layout, replacing recognised range-check blocks (of at
+    least `min_rows` rows) by `value < 2^k`.  Returns the blocks used."""
+    blocks = [b for b in patterns.find_blocks(layout) if b[1] - b[0] >= min_rows and b[2] <= 254]
+    skip = set()
+    for (s, e, k, w) in blocks:
+        skip |= set(range(s, e))
+    rows = [i for i in default_rows(layout) if i not in skip]
+    encode_layout(q, rowsem, layout, rows=rows)
+    for (s, e, k, w) in blocks:
+        v = q.var(wname(w))
+        q.add(f"(< {v} {1 << k})")
+    return blocks
+
+
+# ------------------------------------------------------------------ bound lemmas
+def _disjuncts(e, lin_memo, exp_memo):
+    """linear forms whose vanishing (mod r) is equivalent to e == 0, or None"""
+    if e.op == "n":
+        return _disjuncts(e.args[0], lin_memo, exp_memo)
+    lf = linear_form(e, lin_memo)
+    if lf is not None:
+        return [lf]
+    if e.op == "*":
+        a = _disjuncts(e.args[0], lin_memo, exp_memo)
+        b = _disjuncts(e.args[1], lin_memo, exp_memo)
+        if a is None or b is None:
+            return None
+        return a + b
+    ex = expand(e, exp_memo)
+    if ex is None:
+        return None
+    vs = {v for m in ex for v, _ in m}
+    if len(vs) == 1 and max((k for m in ex for _, k in m), default=0) == 2:
+        x = next(iter(vs))
+        al, be, ga = ex.get(((x, 2),), 0), ex.get(((x, 1),), 0), ex.get((), 0)
+        sq = sqrt_mod((be * be - 4 * al * ga) % R)
+        if sq is None:
+            return []
+        i2a = pow(2 * al, R - 2, R)
+        return [{x: 1, 1: bal(-((-be + sq) * i2a))}, {x: 1, 1: bal(-((-be - sq) * i2a))}]
+    return None
+
+
+def propagate_bounds(rowsem, layout, rows=None, init=None, passes=2):
+    """Speculative interval propagation over the rows, in order.  Returns
+    (bounds, lemmas): every tightened bound is justified by a tiny lemma query
+    `bounds(other witnesses of the atom) and atom => lo <= t <= hi`, to be
+    proven by the solver (each lemma only assumes bounds established by
+    earlier lemmas, so the whole set is sound by induction on the order)."""
+    ctx = rowsem.ctx
+    rows = default_rows(layout) if rows is None else rows
+    n = len(layout.gates)
+    bounds = dict(init or {})
+    lemmas = []
+    lin_memo, exp_memo = {}, {}
+    full = (0, R - 1)
+    for _pass in range(passes):
+        changed = False
+        for i in rows:
+            sel, w = layout.gates[i]
+            nxt = layout.gates[i + 1][1] if i + 1 < n else w
+            wires = {"a": ctx.var(wname(w[0])), "b": ctx.var(wname(w[1])), "c": ctx.var(wname(w[2])),
+                     "d": ctx.var(wname(w[3])), "a_w": ctx.var(wname(nxt[0])), "b_w": ctx.var(wname(nxt[1])),
+                     "d_w": ctx.var(wname(nxt[3]))}
+            pi = ctx.const(layout.pis[i]) if i in layout.pis else None
+            for cname, comp in rowsem.row_components(sel, wires, pi):
+                ds = _disjuncts(comp, lin_memo, exp_memo)
+                if not ds:
+                    continue
+                vs = set()
+                for lf in ds:
+                    vs |= {k for k in lf if k != 1}
+                loose = [v for v in vs if bounds.get(v, full) == full]
+                if len(loose) != 1:
+                    continue
+                t = loose[0]
+                lo_all, hi_all, ok = None, None, True
+                for lf in ds:
+                    ct = lf.get(t, 0)
+                    if ct not in (1, -1):
+                        if ct == 0:
+                            continue  # this disjunct does not mention t: no information
+                        ok = False
+                        break
+                    lo = hi = -lf.get(1, 0) * ct
+                    for k, c in lf.items():
+                        if k in (1, t):
+                            continue
+                        blo, bhi = bounds.get(k, full)
+                        cc = -c * ct
+                        if cc > 0:
+                            lo += cc * blo
+                            hi += cc * bhi
+                        else:
+                            lo += cc * bhi
+                            hi += cc * blo
+                    lo_all = lo if lo_all is None else min(lo_all, lo)
+                    hi_all = hi if hi_all is None else max(hi_all, hi)
+                if not ok or lo_all is None:
+                    continue
+                if any(lf.get(t, 0) == 0 for lf in ds):
+                    continue
+                if lo_all < 0 or hi_all >= R - 1:
+                    continue
+                # lemma
+                q = Query(tag=f"L{len(lemmas)}")
+                for v in vs:
+                    blo, bhi = bounds.get(v, full)
+                    q.var(v, blo, bhi)
+                q.add(q.zero(comp))
+                tv = q.var(t)
+                q.add(f"(not (and (<= {lo_all} {tv}) (<= {tv} {hi_all})))")
+                lemmas.append((f"r{i}/{cname}/{t}", q))
+                bounds[t] = (lo_all, hi_all)
+                changed = True
+        if not changed:
+            break
+    return bounds, lemmas
+
+
+def apply_bounds(q, bounds):
+    """declare the variables of q with the (lemma-justified) bounds; must be
+    called before encoding"""
+    for v, (lo, hi) in bounds.items():
+        q.var(v, lo, hi)
